@@ -222,6 +222,8 @@ extend("C13", "one probe generation after expiry: FailureCache.RetryKey yields a
 
 extend("C17", "internal queries and client policy: ratelimit.ServeDNS and reflex.ServeDNS let a resolver-internal sub-query continue exactly once without a reply and without touching any per-client state (every qtype, source address, cookie shape); and Pipeline.autoWire hands the consumers of internal queries pipelines that contain no handler declaring itself client-only, for every combination of handlers that do.")
 
+extend("C01", "a failed resolution carries no data: DNSHandler.handle, with the resolution replaced by a stub that returns any mix of a data-bearing message and an error (validation error with any EDE code, wrapped, deadline, cancellation, exhausted budget, plain), answers SERVFAIL with no answer/authority/additional record, no AD, the client's id and question, and an Extended DNS Error exactly when the client sent an OPT.")
+
 NA_REASON = "no check registered yet: the solver-based harness for this property is still being built in this session (see DESIGN.md §5 for the plan)"
 def main():
     props = [json.loads(l) for l in open(os.path.join(ROOT, "properties.jsonl"))]
